@@ -22,12 +22,17 @@ Python → Lean
 * `BACKENDS`, `DEFAULT_BACKEND` (changeable through `register_parallel_backend(make_default=True)`),
   `DEFAULT_THREAD_BACKEND`, `DEFAULT_PROCESS_BACKEND`  : `registry`, `Env.defaultBackend`, constants
 * `memstr_to_bytes`                                   : `memstrToBytes` (integer mantissas)
-* a `with` statement                                  : `Op.enter` … `Op.exit` (small step) / `Prog.block` (tree)
+* a `with` statement                                  : `Op.enter` … `Op.exit` (small step) / `Prog.block`, `XProg.block`
+* `cm = parallel_config(...)` / `parallel_backend(...)` called as a function : `Op.create` / `XProg.create`
+* `cm.unregister()` at any later point                 : `Op.unreg k` (k-th object the thread made) / `XProg.unreg`
+* `threading.Thread(...).start()`, a thread in `contextvars.copy_context()`, `asyncio.to_thread` : `Op.spawn child kind`
+* identity of the dictionary in `_backend.config`      : `TState.cur` (only the `guardedUnregister` variant reads it)
 
 Outside the model (the harness never generates them; see TRUSTED_EXTRA of harness/props/c17.py):
 multiprocessing disabled (`mp is None`), the `dask` external backend, multiprocessing-context
 objects passed as `backend`, `inner_max_num_threads`/`**backend_params`, third-party backend
-classes, a sentinel of one key passed for another key, backend instances shared between two uses.
+classes, a sentinel of one key passed for another key, backend instances shared between two uses,
+a context object made by one thread and unregistered by another.
 Import-free, total, computable.
 -/
 namespace JoblibModel.Config
@@ -407,20 +412,58 @@ def parallelInitUnrepaired := parallelInitCore false false
 
 /-! ## Programs, per thread -/
 
-/-- One thread: its `_backend.config` and the context managers of the `with` blocks it is inside
-(innermost first). -/
-structure TState where
-  cfg : Config
-  stack : List Ctx
+/-- How a thread is started: `threading.Thread(target=f)`, a thread whose target runs inside
+`contextvars.copy_context()` of the starting thread, `asyncio.to_thread(f)`. -/
+inductive SpawnKind
+  | plain | copiedContext | toThread
 deriving Repr, DecidableEq
 
-def TState.init : TState := ⟨Config.unset, []⟩
+/-- Switches for three variants of the code that the property excludes (each one is a seeded change
+of round 4; `Variant.code`, all `false`, is joblib as it is — the only variant the driver runs).
+* `guardedUnregister` — `unregister()` restores only `if _backend.config is self.parallel_config`;
+* `contextVar` — the `threading.local` is a `contextvars.ContextVar`: a thread started inside a copy
+  of the starting thread's context begins with that thread's configuration;
+* `gabLiteralDefaults` — `get_active_backend(prefer=None, require=None, verbose=0)`: the literal
+  defaults are passed on as if they had been given explicitly. -/
+structure Variant where
+  guardedUnregister : Bool
+  contextVar : Bool
+  gabLiteralDefaults : Bool
+deriving Repr, DecidableEq
+
+def Variant.code : Variant := ⟨false, false, false⟩
+
+/-- A `parallel_config` / `parallel_backend` object a thread has made (by a `with` statement or by
+a plain call). `id` = its position in the thread's list of objects; `oldOwner` = whose dictionary
+`old_parallel_config` IS (`none` = `default_parallel_config`) — needed only to say what the
+`is` test of the `guardedUnregister` variant sees. -/
+structure Obj where
+  id : Nat
+  cm : Ctx
+  oldOwner : Option Nat
+deriving Repr, DecidableEq
+
+/-- One thread: its `_backend.config` (`cur` = which object's `parallel_config` dictionary that
+is), the objects of the `with` blocks it is inside (innermost first), and every object it has made
+so far in creation order (objects are never forgotten: `unregister()` may be called on any of
+them at any later time, in any order, more than once or never). -/
+structure TState where
+  cfg : Config
+  stack : List Obj
+  objs : List Obj
+  cur : Option Nat
+deriving Repr, DecidableEq
+
+def TState.init : TState := ⟨Config.unset, [], [], none⟩
 
 inductive Op
   | enter (args : Config)                       -- `with parallel_config(**args):` reached
   | exit                                        -- the block is left (return or exception)
   | par (explicit : Config)                     -- `Parallel(**explicit)` constructed and inspected
   | gab (prefer require verbose : Slot)         -- `get_active_backend(...)`
+  | create (args : Config)                      -- `cm_k = parallel_config(**args)`, no `with`
+  | unreg (k : Nat)                             -- `cm_k.unregister()`, k-th object of this thread
+  | spawn (child : Nat) (kind : SpawnKind)      -- start thread `child` (a step of the starter)
 deriving Repr, DecidableEq
 
 inductive Out
@@ -430,42 +473,97 @@ inductive Out
   | badExit
   | par (r : Except Err ParObs)
   | gab (r : Except Err GabObs)
+  | spawned
+
+/-- `parallel_config.__init__` in a thread: the new object and the thread's new state. -/
+def createObj (s : TState) (args : Config) : Except Err (Obj × TState) :=
+  match parallelConfigInit s.cfg args with
+  | .ok (cm, cfg) =>
+    let o : Obj := ⟨s.objs.length, cm, s.cur⟩
+    .ok (o, { s with cfg := cfg, objs := s.objs ++ [o], cur := some o.id })
+  | .error e => .error e
+
+/-- `o.unregister()` in a thread whose state is `s`. -/
+def unregisterV (v : Variant) (s : TState) (o : Obj) : TState :=
+  if v.guardedUnregister && s.cur != some o.id then s
+  else { s with cfg := unregister o.cm, cur := o.oldOwner }
+
+/-- `__exit__` of the innermost `with` block. -/
+def exitStep (v : Variant) (s : TState) : TState × Out :=
+  match s.stack with
+  | o :: rest => (unregisterV v { s with stack := rest } o, .exited)
+  | [] => (s, .badExit)
+
+/-- `cm_k.unregister()`. -/
+def unregStep (v : Variant) (s : TState) (k : Nat) : TState × Out :=
+  match s.objs[k]? with
+  | some o => (unregisterV v s o, .exited)
+  | none => (s, .badExit)
+
+/-- `get_active_backend(prefer, require, verbose)` of a variant. -/
+def getActiveBackendV (v : Variant) (env : Env) (cfg : Config) (prefer require verbose : Slot) :
+    Except Err GabObs :=
+  if v.gabLiteralDefaults then
+    getActiveBackend env cfg (some (prefer.getD .none)) (some (require.getD .none))
+      (some (verbose.getD (.int 0)))
+  else getActiveBackend env cfg prefer require verbose
 
 /-- One step of one thread. -/
-def step (env : Env) (s : TState) : Op → TState × Out
+def stepV (v : Variant) (env : Env) (s : TState) : Op → TState × Out
   | .enter args =>
-    match parallelConfigInit s.cfg args with
-    | .ok (cm, cfg) => (⟨cfg, cm :: s.stack⟩, .entered)
+    match createObj s args with
+    | .ok (o, s') => ({ s' with stack := o :: s'.stack }, .entered)
     | .error e => (s, .enterRaised e)
-  | .exit =>
-    match s.stack with
-    | cm :: rest => (⟨unregister cm, rest⟩, .exited)
-    | [] => (s, .badExit)
+  | .create args =>
+    match createObj s args with
+    | .ok (_, s') => (s', .entered)
+    | .error e => (s, .enterRaised e)
+  | .exit => exitStep v s
+  | .unreg k => unregStep v s k
   | .par e => (s, .par (parallelInit env s.cfg e))
-  | .gab p r v => (s, .gab (getActiveBackend env s.cfg p r v))
+  | .gab p r w => (s, .gab (getActiveBackendV v env s.cfg p r w))
+  | .spawn _ _ => (s, .spawned)
+
+/-- joblib as it is. -/
+def step := stepV Variant.code
 
 /-- A thread running a list of steps. -/
-def runThread (env : Env) : TState → List Op → TState × List Out
+def runThreadV (v : Variant) (env : Env) : TState → List Op → TState × List Out
   | s, [] => (s, [])
   | s, op :: ops =>
-    let (s', o) := step env s op
-    let (s'', os) := runThread env s' ops
+    let (s', o) := stepV v env s op
+    let (s'', os) := runThreadV v env s' ops
     (s'', o :: os)
+
+def runThread := runThreadV Variant.code
 
 /-- All threads: `threading.local` gives every thread id its own `TState`. -/
 abbrev Global := Nat → TState
 
-def gstep (env : Env) (g : Global) (t : Nat) (op : Op) : Global × Out :=
-  let (s, o) := step env (g t) op
-  (fun u => if u = t then s else g u, o)
+/-- The state a new thread starts in. joblib: the default configuration, however the thread was
+started. (`contextVar` variant: a thread running in a copy of the starter's context sees the
+starter's configuration.) -/
+def childInit (v : Variant) (parent : TState) (kind : SpawnKind) : TState :=
+  if v.contextVar && kind != .plain then { TState.init with cfg := parent.cfg } else TState.init
+
+def gstepV (v : Variant) (env : Env) (g : Global) (t : Nat) (op : Op) : Global × Out :=
+  match op with
+  | .spawn child kind => (fun u => if u = child then childInit v (g t) kind else g u, .spawned)
+  | op =>
+    let (s, o) := stepV v env (g t) op
+    (fun u => if u = t then s else g u, o)
+
+def gstep := gstepV Variant.code
 
 /-- An interleaving: which thread does which step, in global order. -/
-def grun (env : Env) : Global → List (Nat × Op) → Global × List (Nat × Out)
+def grunV (v : Variant) (env : Env) : Global → List (Nat × Op) → Global × List (Nat × Out)
   | g, [] => (g, [])
   | g, (t, op) :: rest =>
-    let (g', o) := gstep env g t op
-    let (g'', os) := grun env g' rest
+    let (g', o) := gstepV v env g t op
+    let (g'', os) := grunV v env g' rest
     (g'', (t, o) :: os)
+
+def grun := grunV Variant.code
 
 /-- Programs as trees: `block args body k` is `with parallel_config(**args): body` followed by `k`;
 `raise` raises an exception that no `with` block swallows (`__exit__` returns `None`);
@@ -515,5 +613,69 @@ def run : Prog → Config → RunResult
 def stackCfg : List Config → Config
   | [] => Config.unset
   | a :: outer => update (stackCfg outer) a
+
+/-- Programs, general form: `Prog` plus context objects made by a plain call (`create`) and
+`cm_i.unregister()` for the i-th object the thread has made (`unreg`), anywhere — inside or outside
+`with` blocks, in any order, any number of times. `with` blocks themselves stay lexically nested
+(Python has no other way to write them). -/
+inductive XProg
+  | done
+  | par (explicit : Config) (k : XProg)
+  | gab (prefer require verbose : Slot) (k : XProg)
+  | block (args : Config) (body : XProg) (k : XProg)
+  | create (args : Config) (k : XProg)
+  | unreg (i : Nat) (k : XProg)
+  | raise
+  | try_ (body : XProg) (k : XProg)
+deriving Repr
+
+structure XResult where
+  state : TState             -- the thread afterwards
+  raised : Bool              -- an exception is propagating
+  ops : List Op              -- the steps that were executed, in order
+deriving Repr
+
+/-- Big-step execution of a general program by a thread in state `s` (joblib as it is). -/
+def xrun : XProg → TState → XResult
+  | .done, s => ⟨s, false, []⟩
+  | .par e k, s =>
+    let r := xrun k s
+    ⟨r.state, r.raised, .par e :: r.ops⟩
+  | .gab p q v k, s =>
+    let r := xrun k s
+    ⟨r.state, r.raised, .gab p q v :: r.ops⟩
+  | .block args body k, s =>
+    match createObj s args with
+    | .error _ => ⟨s, true, [.enter args]⟩            -- the constructor raised: nothing was assigned
+    | .ok (o, s') =>
+      let rb := xrun body { s' with stack := o :: s'.stack }
+      let s'' := (exitStep Variant.code rb.state).1     -- `__exit__`, whatever the body did
+      if rb.raised then ⟨s'', true, .enter args :: rb.ops ++ [.exit]⟩
+      else
+        let rk := xrun k s''
+        ⟨rk.state, rk.raised, .enter args :: rb.ops ++ .exit :: rk.ops⟩
+  | .create args k, s =>
+    match createObj s args with
+    | .error _ => ⟨s, true, [.create args]⟩
+    | .ok (_, s') =>
+      let r := xrun k s'
+      ⟨r.state, r.raised, .create args :: r.ops⟩
+  | .unreg i k, s =>
+    let r := xrun k (unregStep Variant.code s i).1
+    ⟨r.state, r.raised, .unreg i :: r.ops⟩
+  | .raise, s => ⟨s, true, []⟩
+  | .try_ body k, s =>
+    let rb := xrun body s
+    let rk := xrun k rb.state
+    ⟨rk.state, rk.raised, rb.ops ++ rk.ops⟩
+
+/-- A tree of `with` blocks as a general program. -/
+def Prog.embed : Prog → XProg
+  | .done => .done
+  | .par e k => .par e k.embed
+  | .gab p q v k => .gab p q v k.embed
+  | .block a body k => .block a body.embed k.embed
+  | .raise => .raise
+  | .try_ body k => .try_ body.embed k.embed
 
 end JoblibModel.Config
